@@ -51,6 +51,8 @@ func sortOf(t types.Type) Sort {
 		return ArrS(SInt, SStr)
 	case tyQMap:
 		return ArrS(SInt, SSeq)
+	case tyTrace:
+		return ArrS(SInt, SEvent)
 	}
 	if isOpaqueIntStruct(t) {
 		return SInt
